@@ -8,13 +8,15 @@ rs = np.random.RandomState(SEED)
 fails, evals, distinct, samples = [], 0, set(), []
 def bad(clause, **kw):
     if len(fails) < PARAMS.get("maxfail", 8): fails.append(dict(clause=clause, **{k: (float(v) if isinstance(v, (np.floating, float)) else v) for k, v in kw.items()}))
-FEES = [None, lambda q, p: abs(q) * 0.001, lambda q, p: abs(q) * p * 0.0005, lambda q, p: max(1.0, abs(q) * 0.002) if q != 0 else 0.0]
+FEES = [None, lambda q, p: abs(q) * 0.001, lambda q, p: abs(q) * p * 0.0005, lambda q, p: max(1.0, abs(q) * 0.002) if q != 0 else 0.0,
+        lambda q, p: abs(q) * 1.0, lambda q, p: abs(q) * p * 0.1]      # the last two are large enough to move the first guess of the search by whole units
 idx = pd.date_range("2021-01-04", periods=2)
 for it in range(N):
     price = float(np.round(rs.uniform(0.5, 400), int(rs.randint(0, 5))))
     mult = float(rs.choice([1.0, 1.0, 0.5, 10.0, 100.0]))
     spread = float(rs.choice([0.0, 0.0, rs.uniform(0.01, 0.5)])) * min(1.0, price / 50)
     fk = int(rs.randint(len(FEES))); intpos = bool(rs.randint(2))
+    if fk == 4 and price * mult < 2.5: price = float(np.round(price + 5.0 / mult, 2))     # the property quantifies over commissions smaller than the unit price
     pos0 = float(rs.randint(-3000, 3000)) if rs.rand() < 0.7 else 0.0
     data = pd.DataFrame({"a": [price, price]}, index=idx)
     s = Strategy("s", [], children=[Security("a", multiplier=mult)])
@@ -31,6 +33,10 @@ for it in range(N):
     elif mode < 0.75:
         # less than (about) one unit: nothing, or exactly one unit, is affordable
         amount = float(rs.choice([1, 1, -1]) * rs.uniform(0.0, 1.2) * unit * rs.choice([1.0, 0.01]))
+    elif mode < 0.83 and intpos:
+        # boundary sizes: the amount is exactly the full cost of a whole quantity, which is then affordable and must not be undercut
+        q_exact = float(rs.randint(1, 3000))
+        amount = float(a.outlay(q_exact)[0])
     else:
         # resonant sizes: the full cost of some whole quantity exceeds the amount by a whole number of units plus a hair, so the
         # search step (shortfall / unit price) lands next to a whole number
@@ -47,13 +53,14 @@ for it in range(N):
     if PARAMS.get("only_raises"): continue      # C10 asks only whether a well-formed allocation completes; the budget clauses are C05's
     q = a.position - p0
     spent = cap0 - s.capital        # outlay + fee actually paid
-    true_closeout = abs(amount + p0 * unit) <= 1e-9 * max(1.0, abs(amount))     # allocating exactly minus the current value
+    true_closeout = abs(amount + p0 * unit) <= 1e-13 * max(1.0, abs(amount))    # allocating exactly minus the current value (up to the rounding of the product); anything farther away is an ordinary allocation
     if true_closeout:
         if p0 != 0 and a.position != 0: bad("closing-amount-does-not-close-the-position", position=p0, left=a.position, amount=amount)
         continue
     tol = 1e-6 * max(1.0, abs(amount))
     if intpos:
         full = lambda k: float(a.outlay(k)[0]) if k != 0 else 0.0
+        if 0.75 <= mode < 0.83 and q < q_exact: bad("whole-unit-trade-is-not-the-largest-that-fits", boundary="the amount is exactly the full cost of %r units" % q_exact, q=q, amount=amount, spent=spent, price=price, multiplier=mult, spread=spread, fee=fk, position=p0)
         if q == 0:
             # doing nothing is right only when it is the largest whole quantity whose cost stays within the amount
             if amount < -tol:
@@ -69,5 +76,5 @@ for it in range(N):
         if abs(spent - amount) > tol: bad("fractional-trade-does-not-spend-the-amount", spent=spent, amount=amount, q=q)
     if it < 2: samples.append(dict(price=price, multiplier=mult, spread=spread, fee=fk, integer=intpos, position=p0, amount=amount, traded=q, spent=spent))
 print("JSON:" + json.dumps(dict(evaluations=evals, distinct=len(distinct), failures=sorted(fails, key=lambda f: "finding" in f)[:PARAMS.get("maxfail", 5)], samples=samples,
-      rule="random price (0-4 decimals), multiplier, spread, 4 fee shapes (none, per unit, proportional, minimum ticket), prior long/short/flat position, signed amount (ordinary sizes, below one unit, and sizes whose costs add up to about one more unit), whole or fractional units; allocate must not raise and must respect the budget; distinct = distinct (fee, mode, multiplier, spread?, position sign, amount sign)",
+      rule="random price (0-4 decimals), multiplier, spread, 6 fee shapes (none, per unit small/large, proportional small/large, minimum ticket), prior long/short/flat position, signed amount (ordinary sizes, below one unit, exactly the full cost of a whole quantity, and sizes whose costs add up to about one more unit), whole or fractional units; allocate must not raise and must respect the budget; distinct = distinct (fee, mode, multiplier, spread?, position sign, amount sign)",
       bound="%d random allocations on the direct API" % N)))
